@@ -1,5 +1,6 @@
 import SamVerif.Lemmas.Doc
 import SamVerif.Lemmas.CommentQueue
+import SamVerif.Lemmas.Imports
 /-!
 # C09 — Formatting is idempotent and keeps every comment
 
@@ -282,3 +283,68 @@ Stretch (stated, not proved; listed under `pending` in the evidence):
 -/
 
 end SamVerif.CommentQueue
+
+namespace SamVerif.Imports
+open SamVerif.Doc
+open SamVerif.CommentQueue (Comment Kind)
+
+/-! ## Import reorganisation (`source_module_to_document`, source_printer.rs:1260-1302)
+
+The one place where the printer reorders and merges declarations. Tied to the code by protocol
+`imports` (the model's document for the import section equals the real `Document`, hook H4b). -/
+
+/-- **Grouping is exact.** Every printed import line carries the comments of *all* source lines
+importing that module, in source order, and all their members; there is one line per imported
+module. -/
+theorem imports_group_exact (imps : List Import) :
+    ((organize imps).map (·.path)).Nodup ∧
+    (∀ p, p ∈ (organize imps).map (·.path) ↔ p ∈ imps.map (·.path)) ∧
+    ∀ g ∈ organize imps,
+      g.comments = (imps.filter (fun i => i.path = g.path)).map (·.comments) ∧
+      g.members = (imps.filter (fun i => i.path = g.path)).flatMap (·.members) := by
+  have hnd : ((organize imps).map (·.path)).Nodup := nodup_foldl imps [] (by simp)
+  refine ⟨hnd, ?_, ?_⟩
+  · intro p
+    have := mem_paths_foldl p imps []
+    simpa [organize] using this
+  · intro g hg
+    have hf := find_of_mem_nodup _ hnd g hg
+    have h1 := foldl_commentsAt g.path imps []
+    have h2 := foldl_membersAt g.path imps []
+    simp only [commentsAt, membersAt, List.find?_nil, List.nil_append] at h1 h2
+    unfold organize at hf
+    rw [hf] at h1 h2
+    exact ⟨h1, h2⟩
+
+/-- Sorting the groups and the members keeps the groups (as a permutation) and their comments. -/
+theorem sortedGroups_comments (imps : List Import) :
+    (flatComments (sortedGroups imps)).Perm (flatComments (organize imps)) := by
+  unfold sortedGroups flatComments
+  rw [List.flatMap_map]
+  exact (sortBy_perm _ (organize imps)).flatMap_right _
+
+/-- **No comment of an import line is lost or duplicated by merging and sorting**: the comments
+printed with the import lines are a permutation of the comments attached to the source lines. -/
+theorem imports_conserve_comments (imps : List Import) :
+    (flatComments (sortedGroups imps)).Perm (imps.flatMap (·.comments)) := by
+  refine (sortedGroups_comments imps).trans ?_
+  have := flatComments_foldl imps []
+  simpa [organize, flatComments] using this
+
+/-- The comments move *with their line*: inside one printed line they appear in source order of the
+merged lines. -/
+theorem imports_comments_move_with_line (imps : List Import) (g : Group) (hg : g ∈ sortedGroups imps) :
+    g.comments.flatten = (imps.filter (fun i => i.path = g.path)).flatMap (·.comments) := by
+  unfold sortedGroups at hg
+  obtain ⟨g0, hg0, rfl⟩ := List.mem_map.mp hg
+  have hm : g0 ∈ organize imps := (sortBy_perm _ _).mem_iff.mp hg0
+  have := ((imports_group_exact imps).2.2 g0 hm).1
+  rw [this, List.flatMap_def]
+
+example :
+    let c1 : Comment := ⟨.line, ['1']⟩
+    let c3 : Comment := ⟨.line, ['3']⟩
+    (sortedGroups [⟨['B'], [c1], [['y']]⟩, ⟨['A'], [], [['z']]⟩, ⟨['B'], [c3], [['x']]⟩]) =
+      [⟨['A'], [[]], [['z']]⟩, ⟨['B'], [[c1], [c3]], [['x'], ['y']]⟩] := by decide
+
+end SamVerif.Imports
